@@ -60,16 +60,16 @@ def mc_configs(tier):
         # half kernels: power above, scaled power below, identity removal, switching from full to half
         ("half-pow", consts(FullKinds={"pow"}, UpKinds={"none", "pow"}, LoKinds={"spow", "mult"}, BMax=2 * S, BMin=0,
                             PartVals={S // 2}, Forms={"pair", "attr"}, Reds={"default"}, PowU=2, PowL=2,
-                            MaxDepth=d)),
+                            MaxDepth=4 if q else d)),
         # sharp: elements at the limit and beyond it, full and half
         ("sharp", consts(FullKinds={"sharp"}, UpKinds={"sharp"}, LoKinds={"none", "sharp"}, E=2, W0Base=S,
                          W0Step=S // 2, PartVals={S // 2}, Forms={"pair", "single"}, Reds={"default"},
                          FullNoMin=True, MaxDepth=d)),
         # full kernels with one limit missing
         ("full-nolim", consts(FullKinds={"mult", "pow"}, FullNoMax=True, FullNoMin=True, PartVals={S // 2},
-                              Forms={"pair"}, Reds={"default"}, PowU=2, PowL=3, MaxDepth=d)),
+                              Forms={"pair"}, Reds={"default"}, PowU=2, PowL=3, MaxDepth=4 if q else d)),
         # reductions: mean / amin / amax, constructor reduction
-        ("reductions", consts(Red0="amax", Reds={"default", "mean", "amin"}, FullKinds={"none"}, E=1 if q else 2,
+        ("reductions", consts(Red0="amax", Reds={"default", "mean", "amin"}, FullKinds={"none"}, E=1,
                               PartVals={0, S // 2}, Forms={"pair"}, Families=ALLFAM - {"bound", "some"},
                               MaxDepth=4 if q else 5)),
         # two parameters: update / updatesome / clear interplay
@@ -80,11 +80,11 @@ def mc_configs(tier):
     ]
     if not q:
         cfgs += [
-            ("three-parts", consts(MaxParts=3, PartVals={0, S // 4, S}, Forms={"pair"}, Reds={"default", "amax"},
-                                   FullKinds={"mult"}, Families=ALLFAM - {"some"}, MaxDepth=6)),
+            ("three-parts", consts(MaxParts=3, PartVals={S // 4, S}, Forms={"pair"}, Reds={"default", "amax"},
+                                   FullKinds={"mult"}, Families=ALLFAM - {"some", "clear"}, MaxDepth=6)),
             ("half-mixed", consts(FullKinds=set(), UpKinds={"mult", "smult", "sharp"}, LoKinds={"mult", "smult", "sharp"},
-                                  BMax=S, BMin=-S, E=2, W0Base=-S, W0Step=S, PartVals={S // 2, S}, Forms={"pair"},
-                                  Reds={"default"}, MaxDepth=5)),
+                                  BMax=S, BMin=-S, E=2, W0Base=-S, W0Step=S, PartVals={S // 2}, Forms={"pair"},
+                                  Reds={"default"}, Families=ALLFAM - {"some", "red"}, MaxDepth=6)),
         ]
     return cfgs
 
@@ -159,6 +159,38 @@ def model_check_and_generate(chk: Check, tier: str):
             chk.add_tlc(name, res)
             graphs.append((g, c))
     return graphs
+
+
+def apalache_steps(chk: Check, tier: str):
+    """Optional: the range invariant as an inductive step over UNBOUNDED integers (exact
+    rationals num/den, no grid, arbitrarily long histories) with Apalache.  Reported
+    separately; a stall / missing tool never fails the check, a counterexample does."""
+    import shutil, subprocess, tempfile, re
+    exe = shutil.which("apalache-mc")
+    out = {}
+    actions = ["NextMult"] if tier == "quick" else ["NextMult", "NextScaled", "NextScaledPow2"]
+    if not exe:
+        chk.extra["apalache_inductive_step"] = "apalache-mc not found"
+        return
+    for act in actions:
+        work = tempfile.mkdtemp(prefix="verif-apa-")
+        try:
+            shutil.copy(tlc.SPEC_DIR / "UpdaterInd.tla", work)
+            try:
+                p = subprocess.run(["timeout", "120", exe, "check", "--init=IndInit", "--inv=IndInv", f"--next={act}",
+                                    "--length=1", f"--out-dir={work}/out", "UpdaterInd.tla"], cwd=work,
+                                   capture_output=True, text=True, timeout=150)
+                m = re.search(r"The outcome is: (\w+)", p.stdout + p.stderr)
+                out[act] = m.group(1) if m else ("timeout" if p.returncode == 124 else f"exit {p.returncode}")
+            except subprocess.TimeoutExpired:
+                out[act] = "timeout"
+        finally:
+            shutil.rmtree(work, ignore_errors=True)
+        if out[act] == "Error":
+            chk.violation({"clause": "StaysInside-inductive-step", "site": "spec", "action": act},
+                          {"tool": "apalache", "action": act, "note": "counterexample to the inductive step"})
+    chk.extra["apalache_inductive_step"] = out
+    chk.note(f"apalache inductive step (unbounded integers): {out}")
 
 
 def _signature_extras(rep):
@@ -387,6 +419,84 @@ def random_updater_traces(rng, count, steps=40):
     return traces, ctor_errors
 
 
+def trainer_traces(rng, count, steps=8):
+    """Several shipped trainers (two STDP instances with different rates / trace modes, in all
+    four sign modes) contribute to the updater of ONE connection in random interleavings with
+    reads, peeks, bounding changes and update(clear) calls.  The contributed parts are the
+    ones the trainers appended (oracle input of the event); reads, peeks and the parameter
+    after every update are validated by TLC.  A trace is cut where a contributed part leaves
+    the dyadic grid (never reported)."""
+    from ..impl_split import make_layer, torch, L, TAU, B, NI, NO
+    traces, cut = [], 0
+    for _ in range(count):
+        layer = make_layer("STDP")
+        conn = layer.connection
+        hdr = {"S": S, "params": ["weight"], "red0": "default", "trainers": []}
+        impl = UpdaterImpl(hdr, conn=conn)
+        trainers = []
+        for j in range(rng.choice([1, 2, 2, 3])):
+            a = rng.choice([0.25, 0.5, -0.25, -0.5])
+            b = rng.choice([0.25, 0.5, -0.25, -0.5])
+            mode = rng.choice(["cumulative", "nearest"])
+            tr = L.STDP(a, b, TAU, TAU, trace_mode=mode, batch_reduction=torch.sum)
+            tr.register_cell(f"cell{j}", layer.cell)
+            trainers.append(tr)
+            hdr["trainers"].append({"lr_post": a, "lr_pre": b, "trace_mode": mode})
+        init = _mech_init(impl)
+        evs = []
+        acc = impl.acc("weight")
+        g = torch.Generator().manual_seed(rng.randrange(2 ** 31))
+        alive = True
+
+        def do(op):
+            ret = impl.apply(op)
+            evs.append({"op": op, "ret": ret, "st": impl.weights()})
+            return ret
+
+        for _step in range(steps):
+            if not alive:
+                break
+            pre = torch.rand(B, NI, generator=g) < 0.4
+            post = torch.rand(B, NO, generator=g) < 0.4
+            layer(pre, neuron_kwargs={"override": post})
+            order = [t for t in trainers if rng.random() < 0.8]
+            rng.shuffle(order)
+            for tr in order:
+                npos, nneg = len(acc._pos), len(acc._neg)
+                tr()
+                pos = impl._ints(acc._pos[-1]) if len(acc._pos) > npos else []
+                neg = impl._ints(acc._neg[-1]) if len(acc._neg) > nneg else []
+                if -777777 in pos or -777777 in neg or max([abs(x) for x in pos + neg] + [0]) > 4 * S:
+                    alive = False
+                    cut += 1
+                    break
+                evs.append({"op": {"a": "contrib", "p": "weight", "form": "pair", "side": "-", "pos": pos, "neg": neg},
+                            "ret": {"t": "ok"}, "st": impl.weights()})
+                if rng.random() < 0.3:
+                    do({"a": "read", "p": "weight", "side": rng.choice(["pos", "neg"])})
+            if not alive:
+                break
+            r = rng.random()
+            if r < 0.25:
+                do(_rand_bound_op(rng, "weight"))
+            if r < 0.7:
+                ret = do({"a": "peek", "p": "weight"})
+                w = impl.weights()["weight"]
+                ok = ret.get("t") != "err" and (not ret["some"] or all(
+                    x != -777777 and abs(x + y) <= WMAX for x, y in zip(ret["x"], w)))
+                if ok:
+                    do({"a": "update", "clear": rng.random() < 0.8})
+                else:
+                    do({"a": "clear", "p": "*", "side": "*"})
+            if len(acc._pos) >= 6 or len(acc._neg) >= 6:
+                do({"a": "clear", "p": "*", "side": "*"})
+        if evs:
+            traces.append({"hdr": {"init": init, "cfg": hdr, "waive": []}, "ev": evs, "_keep": (layer, trainers)})
+    for t in traces:
+        t.pop("_keep")
+    return traces, cut
+
+
 def _trace_clause(ev, expected):
     if not expected:
         return "Unexplained"
@@ -479,6 +589,7 @@ def run(tier: str, seed: int) -> int:
     for g, c in graphs:
         replay_graph(chk, g, c, budget=budget, rng=rng)
     canary_replay(chk, graphs[0][0], graphs[0][1], rng)
+    apalache_steps(chk, tier)
     # ---- B: random interleavings on larger configurations
     traces, ctor_errors = random_updater_traces(rng, 120 if tier == "quick" else 2500, steps=40)
     for hdr, err in ctor_errors[:1]:
@@ -486,6 +597,9 @@ def run(tier: str, seed: int) -> int:
                       {"call": f"Updater(connection, {hdr['params']}, reduction=<{hdr['red0']}>)",
                        "observed": f"raises {err}", "expected": "constructs; reads use the reduction", "hdr": hdr})
     _, rej = validate_traces(chk, traces, site="random-interleaving")
+    ttraces, cut = trainer_traces(rng, 40 if tier == "quick" else 600)
+    validate_traces(chk, ttraces, site="shipped-trainers")
+    chk.extra["trainer_traces_cut_off_grid"] = cut
     bad = {r["trace"] for r in rej}
     accepted = [t for i, t in enumerate(traces) if i not in bad
                 and any(e["op"]["a"] in ("update", "updatesome") for e in t["ev"])]
@@ -497,3 +611,47 @@ def run(tier: str, seed: int) -> int:
         chk.note("canary(trace): every recorded trace with an update was rejected (reported above); "
                  "the replay canary stands")
     return chk.finish()
+
+
+def replay(path: str) -> int:
+    """./check C10 --replay <file>: re-execute a recorded failing case on the current tree."""
+    import json
+    doc = json.load(open(path))
+    rep, sig = doc["replay"], doc["signature"]
+    if sig.get("site") == "Updater.__init__":
+        impl = UpdaterImpl(rep["hdr"])
+        print(f"Updater(..., reduction=<{rep['hdr']['red0']}>): " + (f"raises {impl.ctor_error}" if impl.ctor_error else "constructs"))
+        bad = bool(impl.ctor_error)
+    elif "path" in rep and "hdr" in rep:
+        impl = UpdaterImpl(rep["hdr"])
+        for op in rep["path"]:
+            impl.apply(op)
+        if rep.get("op") is None:
+            got = impl.project()
+            bad = graph.canon(got) != graph.canon(rep["expected_state"])
+            print("path", rep["path"], "\nexpected", rep["expected_state"], "\nobserved", got)
+        else:
+            impl.project()      # as in the original replay: the source state was observed (reads) first
+            ret = impl.apply(rep["op"])
+            st = impl.project()
+            bad = not any(graph.canon(o["ret"]) == graph.canon(ret) and graph.canon(o["st"]) == graph.canon(st)
+                          for o in rep["expected"])
+            print("path", rep["path"], "\nop", rep["op"], "\nexpected", rep["expected"], "\nobserved", {"ret": ret, "st": st})
+    elif "ops" in rep and "hdr" in rep and "trainers" not in rep["hdr"]:
+        impl = UpdaterImpl(rep["hdr"])
+        ret = None
+        for op in rep["ops"]:
+            ret = impl.apply(op)
+        obs = {"ret": ret, "st": impl.weights()}
+        bad = not any(graph.canon(o["ret"]) == graph.canon(obs["ret"]) and graph.canon(o["st"]) == graph.canon(obs["st"])
+                      for o in (rep.get("expected") or []))
+        print("ops", rep["ops"], "\nexpected", rep.get("expected"), "\nobserved", obs)
+    else:
+        print("this replay is not re-executable on its own (specification-level or trainer-driven case):")
+        print(json.dumps(rep, indent=1)[:4000])
+        return 2
+    if bad:
+        print(f"VIOLATION property={PID} replay={path}")
+        return 1
+    print("replay: the recorded case now behaves as specified")
+    return 0
